@@ -26,7 +26,7 @@ def generate(seed, tier):
         at_truth = rng.random() < 0.3
         hard = (not at_truth) and rng.random() < 0.4
         name, model, theta, x0, t0, tmax, box, pos = solver.pick_problem(
-            rng, random_frac=0.0, only=["SIR", "SIS", "SEIR"] if hard else None)
+            rng, random_frac=0.0, only=["SIR", "SIS", "SEIR", "SIR_N", "SIR_C", "SIR_C"] if hard else None)
         ref = RefModel(model, insertion_order(model))
         classes = ["SquareLoss", "NormalLoss"] if at_truth else None
         if hard:
